@@ -147,6 +147,9 @@ fn nth_amount(c: char) -> Option<usize> {
         'x' => Some(255),
         'y' => Some(256),
         'z' => Some(1000),
+        'o' => Some(usize::MAX - 1),
+        'p' => Some(1usize << 63),
+        'q' => Some(usize::MAX),
         _ => None,
     }
 }
